@@ -1,6 +1,7 @@
 /- C16: ties to the source text.  Built and audited together with Props/C16.lean by check.py, but in a module of its own, so that a
    changed textual fact breaks the obligations of the properties that own it and not those of every module that imports their lemmas. -/
 import CosetProofs.Ties.Budget.Common
+import CosetProofs.Ties.Compare.Common
 namespace Coset.Props.C16
 
 /-! ### ties to the source text (regenerated on every run, compared in the kernel with the transcribed tree) -/
@@ -9,5 +10,10 @@ namespace Coset.Props.C16
 theorem tie_budget_common : Coset.Ties.budgetCovered "common" Coset.Gen.decisionBudget Coset.Pinned.decisionBudget = true := Coset.Ties.budget_common
 
 #print axioms tie_budget_common
+
+/-! comparisons and integer literals of the modules this property is anchored in (properties.jsonl): none beyond the transcribed tree's -/
+theorem tie_compare_common : Coset.Ties.compareCovered "common" Coset.Gen.decisionBudget Coset.Pinned.decisionBudget = true := Coset.Ties.compare_common
+
+#print axioms tie_compare_common
 
 end Coset.Props.C16
